@@ -25,17 +25,17 @@ type ev struct {
 
 // rec is the recorder of one run.  The root directory base/1 is the model's directory [1].
 type rec struct {
-	base   string
-	cnt    int
-	faults map[int]bool
-	trunc  int // bytes a faulted encode leaves behind
-	trace  []string
-	evs    []ev
-	tdirs  map[string]int
-	tfiles map[string]int
-	alias  map[string]string // real directory name -> model component (junk directories)
-	canon  func(path string, bb []byte) string
-	warns  []error
+	base    string
+	cnt     int
+	faults  map[int]bool
+	trunc   int // bytes a faulted encode leaves behind
+	trace   []string
+	evs     []ev
+	tdirs   map[string]int
+	tfiles  map[string]int
+	alias   map[string]string // real directory name -> model component (junk directories)
+	canon   func(path string, bb []byte) string
+	warns   []error
 	curData []byte // the model token of the representation being encoded
 }
 
@@ -239,7 +239,9 @@ func (r *rec) gobOps() font.VerifGobOps {
 			r.evs = append(r.evs, ev{"encode", p, p, resOf("encode", err), r.curData})
 			return err
 		},
-		Chmod:   func(f *os.File, m os.FileMode) error { return r.file1("chmod", f.Name(), func() error { return d.Chmod(f, m) }) },
+		Chmod: func(f *os.File, m os.FileMode) error {
+			return r.file1("chmod", f.Name(), func() error { return d.Chmod(f, m) })
+		},
 		Sync:    func(f *os.File) error { return r.file1("sync", f.Name(), func() error { return d.Sync(f) }) },
 		SyncDir: func(p string) error { return r.dir1("syncdir", p, func() error { return d.SyncDir(p) }) },
 		Close: func(f *os.File) error {
